@@ -85,6 +85,9 @@ fn main() {
         Some("panic-child") => {
             props::pipe::panic_child(args[2].parse().unwrap(), args[3].parse().unwrap(), args[4].parse().unwrap());
         }
+        Some("panic-child-locked") => {
+            props::pipe::panic_child_locked(args[2].parse().unwrap(), args[3].parse().unwrap(), args[4].parse().unwrap());
+        }
         Some("panic-child-later") => {
             props::pipe::panic_child_later(args[2].parse().unwrap(), args[3].parse().unwrap(), args[4].parse().unwrap());
         }
